@@ -499,11 +499,19 @@ def judge(case, obs):
 def run_case(case):
     """executed in a worker: replay, judge; a failing real-process case is re-run twice more and
     reported only if it fails every time"""
+    def once():
+        try:
+            return judge(case, observe(case))
+        except Machinery as e:
+            # the peer's write succeeded but the bytes never became readable on the reader's side (e.g. the
+            # transport's reader thread died on a character cut by a read): the text was dropped
+            return [('C07:split-character', {'what': 'bytes written by the peer never reached the reader: %s' % e,
+                                             'chunks': [c.hex() for c in chunks_of(case)]})]
     try:
-        fails = judge(case, observe(case))
+        fails = once()
         if fails:
             for _ in range(2):
-                again = judge(case, observe(case))
+                again = once()
                 if not again:
                     return {'fails': [], 'flaky': 1}
         return {'fails': fails, 'flaky': 0}
